@@ -396,7 +396,11 @@ class VCF(Harness):
             rec = "c\t5\ti\tA\tC\t.\tPA\tDP=x,y\tGT\t0/1\t1/1\n"
             pd = NpDataclassReader(NumpyFileReader(ctx.file(list((other + rec).encode())), buf), lazy=False).read()
             len(pd), pd.info.DP
-        d = NpDataclassReader(NumpyFileReader(ctx.file(self._content(skel, x)), buf), lazy=False).read()
+        d = NpDataclassReader(NumpyFileReader(ctx.file(self._content(skel, x)), buf), lazy=skel.get("lazy", False)).read()
+        for key in skel.get("touch", []):
+            getattr(d.info, key)              # history: an INFO key was read on the whole table before the selection is made
+        if skel.get("select") is not None:
+            d = d[list(skel["select"])]       # the selected records, in the order of the index list
         res = dict(n=len(d), chrom=ctx.lst(d.chromosome.raw()), pos=ctx.lst(d.position), id=ctx.lst(d.id), ref=ctx.lst(d.ref_seq),
                    alt=ctx.lst(d.alt_seq), filter=ctx.lst(d.filter), dp=ctx.lst(d.info.DP), fl=ctx.lst(d.info.FL))
         if any(rec.get("af") for rec in skel["recs"]):
@@ -420,14 +424,21 @@ class VCF(Harness):
             exp["dp"].append(I([g(f"v{r}_d{j}") for j in range(rec["dpw"])]))
             exp["fl"].append(rec["info"] in ("fl_dp", "dp_fl", "fla_fl_dp"))
             exp["gt"].append([[g(f"v{r}_g{si}_{k}") for k in range(3)] for si in range(len(rec["samples"]))])
+        if skel.get("select") is not None:
+            exp = {k: [v[i] for i in skel["select"]] for k, v in exp.items()}
         return exp
+
+    def _recs(self, skel):
+        """(source record index, record spec) of the entries of the result, in order"""
+        idx = skel["select"] if skel.get("select") is not None else range(len(skel["recs"]))
+        return [(i, skel["recs"][i]) for i in idx]
 
     def post(self, skel, x, out):
         if isinstance(out, Exc):
             return False
         from vlib.zutil import digits_value
         exp = self._expect(skel, x, lambda v: v.t, lambda ds: digits_value(ds, signed=False))
-        n = len(skel["recs"])
+        n = len(self._recs(skel))
         if out["n"] != n:
             return False
         conj = []
@@ -456,8 +467,8 @@ class VCF(Harness):
             from symnp.core import T
             if len(out["af"]) != n:
                 return False
-            for r, rec in enumerate(skel["recs"]):
-                got = out["af"][r]
+            for j, (r, rec) in enumerate(self._recs(skel)):
+                got = out["af"][j]
                 if not rec.get("af"):          # the key is absent from this record: the missing value (NaN)
                     conj.append(z3.BoolVal(isinstance(got, float) and got != got))
                     continue
@@ -482,22 +493,24 @@ class VCF(Harness):
         if isinstance(cout, Exc):
             return f"raised {cout}"
         exp = self._expect(skel, cx, lambda v: v, lambda ds: int(bytes(ds)))
-        text = bytes(self._content(skel, cx)).decode("latin1").split("\n", 5)[-1]
-        if cout["n"] != len(skel["recs"]):
-            return f"{cout['n']} entries from {len(skel['recs'])} VCF records"
+        text = bytes(self._content(skel, cx)).decode("latin1").split("#CHROM", 1)[1].split("\n", 1)[1]
+        if skel.get("select") is not None:
+            text += f" after reading INFO keys {skel.get('touch', [])} the table is indexed with {list(skel['select'])}:"
+        if cout["n"] != len(self._recs(skel)):
+            return f"{cout['n']} entries from {len(self._recs(skel))} selected VCF records"
         if skel["buffer"] == "VCFMatrixBuffer":
             exp["gt"] = [[t for si, gcell in enumerate(row) for t in (gcell + ([9] if si < len(row) - 1 else []))] for row in exp["gt"]]
         if "af" in cout:
-            for r, rec in enumerate(skel["recs"]):
-                got = float(cout["af"][r])
+            for j, (r, rec) in enumerate(self._recs(skel)):
+                got = float(cout["af"][j])
                 if rec.get("af"):
                     ip, fp = rec["af"]
                     txt = bytes([cx[f"v{r}_af{j}"] for j in range(ip)] + ([46] + [cx[f"v{r}_af{ip + j}"] for j in range(fp)] if fp else [])).decode()
                     want = float(txt)
                     if not (got == got and abs(got - want) <= 1e-9 * max(1, abs(want))):
-                        return f"VCF records {text!r} ({skel['buffer']}): INFO key AF (Type=Float) of record {r} parsed as {got}, the text {txt!r} means {want}"
+                        return f"VCF records {text!r} ({skel['buffer']}): INFO key AF (Type=Float) of entry {j} (record {r}) parsed as {got}, the text {txt!r} means {want}"
                 elif got == got:
-                    return f"VCF records {text!r} ({skel['buffer']}): INFO key AF is absent from record {r} but parsed as {got}"
+                    return f"VCF records {text!r} ({skel['buffer']}): INFO key AF is absent from entry {j} (record {r}) but parsed as {got}"
         for k in exp:
             if k in cout and cout[k] != (exp[k] if k != "fl" else [bool(v) for v in exp[k]]) and not (k == "fl" and [bool(v) for v in cout[k]] == exp[k]):
                 return f"VCF records {text!r} ({skel['buffer']}): column {k} parsed as {cout[k]}, the text means {exp[k]}"
